@@ -210,67 +210,274 @@ theorem delimiterLine_line {bnd l : Bytes} (r : Bytes) (hb : 10 ∉ bnd) (hl : 1
         · exact absurd (first_nl_unique hl (sepOf_noNL hb) e) hs
         · exact absurd (first_nl_unique hl (finOf_noNL hb) e) hf
 
-/-! ### `findBoundaryAux` line by line -/
+/-! ### `findBoundaryAux`: the loop of `findboundary` -/
 
 def prependPre (l : Bytes) (x : Bytes × Bool × Bytes) : Bytes × Bool × Bytes := (l ++ x.1, x.2.1, x.2.2)
 
-theorem findBoundaryAux_cons (bnd : Bytes) (c : UInt8) (r : Bytes) (b : Bool) :
-    findBoundaryAux bnd (c :: r) b =
-      match (if b then delimiterLine bnd (c :: r) else none) with
-      | some term => some ([], term, c :: r)
-      | none => (findBoundaryAux bnd r (c == 10)).map (prependPre [c]) := by
+theorem findBoundaryAux_nil (bnd : Bytes) (n : Nat) : findBoundaryAux bnd [] n = none := by
+  cases n <;> rfl
+
+theorem findBoundaryAux_succ (bnd : Bytes) (c : UInt8) (r : Bytes) (n : Nat) :
+    findBoundaryAux bnd (c :: r) (n + 1) = (findBoundaryAux bnd r n).map (prependPre [c]) := by
   conv => lhs; unfold findBoundaryAux
   rfl
 
-theorem findBoundaryAux_noNL (bnd l : Bytes) (b : Bool) (hl : 10 ∉ l) : findBoundaryAux bnd l b = none := by
-  induction l generalizing b with
+theorem findBoundaryAux_cons (bnd : Bytes) (c : UInt8) (r : Bytes) :
+    findBoundaryAux bnd (c :: r) 0 =
+      match delimiterLine bnd (c :: r) with
+      | some term => some ([], term, c :: r)
+      | none => (findBoundaryAux bnd r (nextLineDist bnd (c :: r) - 1)).map (prependPre [c]) := by
+  conv => lhs; unfold findBoundaryAux
+  rfl
+
+theorem map_prependPre_nil (o : Option (Bytes × Bool × Bytes)) : o.map (prependPre []) = o := by
+  cases o <;> simp [prependPre]
+
+theorem map_prependPre_append (o : Option (Bytes × Bool × Bytes)) (p q : Bytes) :
+    (o.map (prependPre q)).map (prependPre p) = o.map (prependPre (p ++ q)) := by
+  cases o <;> simp [prependPre]
+
+/-- The bytes up to the next line examined are passed over unseen. -/
+theorem findBoundaryAux_hop (bnd p t : Bytes) :
+    findBoundaryAux bnd (p ++ t) p.length = (findBoundaryAux bnd t 0).map (prependPre p) := by
+  induction p with
+  | nil => simp [map_prependPre_nil]
+  | cons c p ih =>
+    simp only [List.cons_append, List.length_cons]
+    rw [findBoundaryAux_succ, ih, map_prependPre_append]
+    rfl
+
+theorem findBoundaryAux_hop' (bnd s : Bytes) (n : Nat) (h : n ≤ s.length) :
+    findBoundaryAux bnd s n = (findBoundaryAux bnd (s.drop n) 0).map (prependPre (s.take n)) := by
+  have := findBoundaryAux_hop bnd (s.take n) (s.drop n)
+  rw [List.take_append_drop, List.length_take, Nat.min_eq_left h] at this
+  exact this
+
+theorem skipLine_length_le (s : Bytes) : (skipLine s).length ≤ s.length := by
+  induction s with
+  | nil => simp [skipLine]
+  | cons c r ih =>
+    unfold skipLine
+    split
+    · simp
+    · simp; omega
+
+theorem skipLine_length_lt {s : Bytes} (h : s ≠ []) : (skipLine s).length < s.length := by
+  cases s with
+  | nil => contradiction
+  | cons c r =>
+    unfold skipLine
+    split
+    · simp
+    · have := skipLine_length_le r
+      simp; omega
+
+theorem skipLine_suffix' (s : Bytes) : skipLine s <:+ s := by
+  induction s with
+  | nil => exact List.suffix_refl _
+  | cons c r ih =>
+    unfold skipLine
+    split
+    · exact List.suffix_cons _ _
+    · exact ih.trans (List.suffix_cons _ _)
+
+/-- What the comparisons of one round have passed over: nothing, `--`, `--` boundary, or `--` boundary `--`. -/
+theorem continueAt_split (bnd s : Bytes) :
+    ∃ p, s = p ++ continueAt bnd s ∧
+      (p = [] ∨ p = [45, 45] ∨ p = [45, 45] ++ bnd ∨ p = [45, 45] ++ bnd ++ [45, 45]) := by
+  unfold continueAt
+  simp only [startsWith]
+  by_cases h1 : List.isPrefixOf [45, 45] s
+  · simp only [h1, Bool.not_true, Bool.false_eq_true, if_false]
+    obtain ⟨s1, rfl⟩ := List.isPrefixOf_iff_prefix.mp h1
+    have hd : ([45, 45] ++ s1 : Bytes).drop 2 = s1 := rfl
+    simp only [hd]
+    by_cases h2 : List.isPrefixOf bnd s1
+    · simp only [h2, Bool.not_true, Bool.false_eq_true, if_false]
+      obtain ⟨s2, rfl⟩ := List.isPrefixOf_iff_prefix.mp h2
+      simp only [List.drop_left]
+      by_cases h3 : List.isPrefixOf [45, 45] s2
+      · simp only [h3, if_true]
+        obtain ⟨s3, rfl⟩ := List.isPrefixOf_iff_prefix.mp h3
+        have hd3 : ([45, 45] ++ s3 : Bytes).drop 2 = s3 := rfl
+        exact ⟨[45, 45] ++ bnd ++ [45, 45], by rw [hd3]; simp, Or.inr (Or.inr (Or.inr rfl))⟩
+      · simp only [h3, Bool.false_eq_true, if_false]
+        exact ⟨[45, 45] ++ bnd, by simp, Or.inr (Or.inr (Or.inl rfl))⟩
+    · simp only [h2, Bool.not_false, if_true]
+      exact ⟨[45, 45], rfl, Or.inr (Or.inl rfl)⟩
+  · simp only [h1, Bool.not_false, if_true]
+    exact ⟨[], rfl, Or.inl rfl⟩
+
+theorem continueAt_suffix (bnd s : Bytes) : continueAt bnd s <:+ s := by
+  obtain ⟨p, hp, _⟩ := continueAt_split bnd s
+  exact ⟨p, hp.symm⟩
+
+theorem continueAt_length_le (bnd s : Bytes) : (continueAt bnd s).length ≤ s.length :=
+  (continueAt_suffix bnd s).length_le
+
+theorem continueAt_noNL_prefix (bnd s : Bytes) (hb : 10 ∉ bnd) : ∃ p, s = p ++ continueAt bnd s ∧ 10 ∉ p := by
+  obtain ⟨p, hp, hc⟩ := continueAt_split bnd s
+  refine ⟨p, hp, ?_⟩
+  rcases hc with rfl | rfl | rfl | rfl <;> simp [hb]
+
+/-- The line the next round examines. -/
+def nextLine (bnd s : Bytes) : Bytes := skipLine (continueAt bnd s)
+
+theorem nextLine_suffix (bnd s : Bytes) : nextLine bnd s <:+ s :=
+  (skipLine_suffix' _).trans (continueAt_suffix bnd s)
+
+theorem nextLine_length_lt (bnd : Bytes) {s : Bytes} (h : s ≠ []) : (nextLine bnd s).length < s.length := by
+  unfold nextLine
+  by_cases hc : continueAt bnd s = []
+  · rw [hc]
+    cases s with
+    | nil => contradiction
+    | cons c r => simp [skipLine]
+  · have := skipLine_length_lt hc
+    have := continueAt_length_le bnd s
+    omega
+
+theorem nextLine_split (bnd s : Bytes) : s = s.take (nextLineDist bnd s) ++ nextLine bnd s := by
+  obtain ⟨p, hp⟩ := nextLine_suffix bnd s
+  have hd : nextLineDist bnd s = p.length := by
+    unfold nextLineDist
+    show s.length - (nextLine bnd s).length = _
+    have hl := congrArg List.length hp
+    simp only [List.length_append] at hl
+    omega
+  rw [hd]
+  conv => rhs; arg 1; rw [← hp]
+  rw [List.take_left]
+  exact hp.symm
+
+/-- The loop of `findboundary`, one round: the line at `s` is a delimiter line, or the loop goes on with the line
+`skipline` finds from where the comparisons stopped. -/
+theorem findBoundaryAux_round (bnd s : Bytes) :
+    findBoundaryAux bnd s 0 =
+      match s, delimiterLine bnd s with
+      | [], _ => none
+      | _ :: _, some term => some ([], term, s)
+      | _ :: _, none => (findBoundaryAux bnd (nextLine bnd s) 0).map (prependPre (s.take (nextLineDist bnd s))) := by
+  cases s with
   | nil => rfl
-  | cons c l' ih =>
-    have hr : 10 ∉ l' := fun h => hl (by simp [h])
+  | cons c r =>
     rw [findBoundaryAux_cons]
-    cases b <;> simp [delimiterLine_noNL hl, ih _ hr]
+    cases hd : delimiterLine bnd (c :: r) with
+    | some term => rfl
+    | none =>
+      simp only
+      have hlt := nextLine_length_lt bnd (List.cons_ne_nil c r)
+      have hsp := nextLine_split bnd (c :: r)
+      have hdist : nextLineDist bnd (c :: r) = (c :: r).length - (nextLine bnd (c :: r)).length := rfl
+      have hpos : 0 < nextLineDist bnd (c :: r) := by omega
+      obtain ⟨k, hk⟩ : ∃ k, nextLineDist bnd (c :: r) = k + 1 := ⟨_, (Nat.succ_pred_eq_of_pos hpos).symm⟩
+      rw [hk] at hsp ⊢
+      simp only [Nat.add_sub_cancel, List.take_succ_cons] at hsp ⊢
+      have hr : r = r.take k ++ nextLine bnd (c :: r) := by
+        have := hsp
+        simp only [List.cons_append, List.cons.injEq, true_and] at this
+        exact this
+      have hkl : k ≤ r.length := by simp at hdist; omega
+      have hdrop : r.drop k = nextLine bnd (c :: r) := by
+        have h2 : r.take k ++ r.drop k = r.take k ++ nextLine bnd (c :: r) := by
+          rw [List.take_append_drop]; exact hr
+        exact List.append_cancel_left h2
+      rw [findBoundaryAux_hop' bnd r k hkl, hdrop, map_prependPre_append]
+      rfl
 
-theorem findBoundaryAux_mid (bnd l r : Bytes) (hl : 10 ∉ l) :
-    findBoundaryAux bnd (l ++ 10 :: r) false = (findBoundaryAux bnd r true).map (prependPre (l ++ [10])) := by
-  induction l with
-  | nil =>
-    simp only [List.nil_append]
-    rw [findBoundaryAux_cons]
-    simp
-  | cons c l' ih =>
-    have hc : (c == 10) = false := by
-      have : c ≠ 10 := fun h => hl (by simp [h])
-      simp [this]
-    have hr : 10 ∉ l' := fun h => hl (by simp [h])
-    simp only [List.cons_append]
-    rw [findBoundaryAux_cons]
-    simp only [Bool.false_eq_true, if_false, hc]
-    rw [ih hr]
-    cases findBoundaryAux bnd r true <;> simp [prependPre]
+theorem findBoundaryAux_found {bnd s : Bytes} {term : Bool} (hd : delimiterLine bnd s = some term) :
+    findBoundaryAux bnd s 0 = some ([], term, s) := by
+  rw [findBoundaryAux_round bnd s, hd]
+  cases s with
+  | nil => simp [delimiterLine, startsWith] at hd
+  | cons c r => rfl
 
-theorem findBoundaryAux_line (bnd l r : Bytes) (hl : 10 ∉ l) :
-    findBoundaryAux bnd (l ++ 10 :: r) true =
+theorem findBoundaryAux_continue {bnd s : Bytes} (hs : s ≠ []) (hd : delimiterLine bnd s = none) :
+    findBoundaryAux bnd s 0 =
+      (findBoundaryAux bnd (nextLine bnd s) 0).map (prependPre (s.take (nextLineDist bnd s))) := by
+  rw [findBoundaryAux_round bnd s, hd]
+  cases s with
+  | nil => exact absurd rfl hs
+  | cons c r => rfl
+
+theorem findBoundaryAux_split {bnd s pre rest : Bytes} {n : Nat} {term : Bool}
+    (h : findBoundaryAux bnd s n = some (pre, term, rest)) :
+    s = pre ++ rest ∧ rest ≠ [] ∧ delimiterLine bnd rest = some term := by
+  induction s generalizing pre n with
+  | nil => rw [findBoundaryAux_nil] at h; cases h
+  | cons c r ih =>
+    cases n with
+    | succ n =>
+      rw [findBoundaryAux_succ] at h
+      simp only [Option.map_eq_some_iff] at h
+      obtain ⟨⟨a, t, b'⟩, hab, heq⟩ := h
+      cases heq
+      obtain ⟨h1, h2, h3⟩ := ih hab
+      exact ⟨by rw [h1]; rfl, h2, h3⟩
+    | zero =>
+      rw [findBoundaryAux_cons] at h
+      split at h
+      · rename_i t ht
+        cases h
+        exact ⟨rfl, by simp, ht⟩
+      · simp only [Option.map_eq_some_iff] at h
+        obtain ⟨⟨a, t, b'⟩, hab, heq⟩ := h
+        cases heq
+        obtain ⟨h1, h2, h3⟩ := ih hab
+        exact ⟨by rw [h1]; rfl, h2, h3⟩
+
+theorem findBoundaryAux_noNL (bnd l : Bytes) (n : Nat) (hl : 10 ∉ l) : findBoundaryAux bnd l n = none := by
+  cases h : findBoundaryAux bnd l n with
+  | none => rfl
+  | some x =>
+    obtain ⟨pre, term, rest⟩ := x
+    obtain ⟨h1, _, h3⟩ := findBoundaryAux_split h
+    have : 10 ∉ rest := fun hm => hl (by rw [h1]; exact List.mem_append_right _ hm)
+    rw [delimiterLine_noNL this] at h3
+    cases h3
+
+/-- A prefix without a newline of a text whose first line is `l` lies inside `l`. -/
+theorem prefix_of_line {p q l r : Bytes} (h : p ++ q = l ++ 10 :: r) (hp : 10 ∉ p) :
+    ∃ l', l = p ++ l' ∧ q = l' ++ 10 :: r := by
+  rcases List.append_eq_append_iff.mp h with ⟨a', h1, h2⟩ | ⟨c', h1, h2⟩
+  · exact ⟨a', h1, h2⟩
+  · cases c' with
+    | nil => exact ⟨[], by simpa using h1.symm, by simpa using h2.symm⟩
+    | cons x c'' =>
+      simp only [List.cons_append, List.cons.injEq] at h2
+      exact absurd (by rw [h1, h2.1]; simp) hp
+
+/-- For a newline-free boundary the next line examined is the next line of the text. -/
+theorem nextLine_line (bnd l r : Bytes) (hb : 10 ∉ bnd) (hl : 10 ∉ l) : nextLine bnd (l ++ 10 :: r) = r := by
+  obtain ⟨p, hp, hpn⟩ := continueAt_noNL_prefix bnd (l ++ 10 :: r) hb
+  obtain ⟨l', hl', hq⟩ := prefix_of_line hp.symm hpn
+  unfold nextLine
+  rw [hq]
+  exact skipLine_line l' r (fun hm => hl (by rw [hl']; exact List.mem_append_right _ hm))
+
+theorem findBoundaryAux_line (bnd l r : Bytes) (hb : 10 ∉ bnd) (hl : 10 ∉ l) :
+    findBoundaryAux bnd (l ++ 10 :: r) 0 =
       match delimiterLine bnd (l ++ 10 :: r) with
       | some tm => some ([], tm, l ++ 10 :: r)
-      | none => (findBoundaryAux bnd r true).map (prependPre (l ++ [10])) := by
-  cases l with
-  | nil =>
-    simp only [List.nil_append]
-    rw [findBoundaryAux_cons]
-    simp
-  | cons c l' =>
-    have hc : (c == 10) = false := by
-      have : c ≠ 10 := fun h => hl (by simp [h])
-      simp [this]
-    have hr : 10 ∉ l' := fun h => hl (by simp [h])
-    simp only [List.cons_append]
-    rw [findBoundaryAux_cons]
-    simp only [if_true]
-    cases delimiterLine bnd (c :: (l' ++ 10 :: r)) with
-    | some tm => rfl
-    | none =>
-      simp only [hc, findBoundaryAux_mid bnd l' r hr]
-      cases findBoundaryAux bnd r true <;> simp [prependPre]
+      | none => (findBoundaryAux bnd r 0).map (prependPre (l ++ [10])) := by
+  rw [findBoundaryAux_round bnd (l ++ 10 :: r)]
+  have hne : ∃ c t, l ++ 10 :: r = c :: t := by
+    cases l with
+    | nil => exact ⟨10, r, rfl⟩
+    | cons c l' => exact ⟨c, l' ++ 10 :: r, rfl⟩
+  obtain ⟨c, t, hct⟩ := hne
+  have hnl := nextLine_line bnd l r hb hl
+  have hdist : nextLineDist bnd (l ++ 10 :: r) = (l ++ [10]).length := by
+    show (l ++ 10 :: r).length - (nextLine bnd (l ++ 10 :: r)).length = _
+    rw [hnl]; simp; omega
+  have htake : (l ++ 10 :: r).take (nextLineDist bnd (l ++ 10 :: r)) = l ++ [10] := by
+    rw [hdist]
+    have : l ++ 10 :: r = (l ++ [10]) ++ r := by simp
+    rw [this, List.take_left]
+  rw [htake, hnl]
+  generalize delimiterLine bnd (l ++ 10 :: r) = d
+  rw [hct]
+  cases d <;> rfl
 
 /-! ### `findBoundary` in terms of the terminated lines -/
 
@@ -291,7 +498,7 @@ theorem findBoundary_lines (bnd : Bytes) (hb : 10 ∉ bnd) (t : Bytes) :
         ∧ (skipLine fromLine).length < t.length) := by
   induction t using lines_induction with
   | h0 t ht =>
-    simp [termLines_noNL t [] ht, findBoundary, findBoundaryAux_noNL bnd t true ht]
+    simp [termLines_noNL t [] ht, findBoundary, findBoundaryAux_noNL bnd t 0 ht]
   | h1 l r hl ih =>
     have hls : (Spec.termLines (l ++ 10 :: r) []).1 = l :: (Spec.termLines r []).1 := by
       simpa using termLines_line l r [] hl
@@ -301,7 +508,7 @@ theorem findBoundary_lines (bnd : Bytes) (hb : 10 ∉ bnd) (t : Bytes) :
         else if l = sepOf bnd then some ([], false, l ++ 10 :: r)
         else (findBoundary bnd r).map (prependPre (l ++ [10])) := by
       unfold findBoundary
-      rw [findBoundaryAux_line bnd l r hl, delimiterLine_line r hb hl]
+      rw [findBoundaryAux_line bnd l r hb hl, delimiterLine_line r hb hl]
       by_cases hf : l = finOf bnd
       · simp only [if_pos hf]
       · by_cases hs : l = sepOf bnd
